@@ -12,6 +12,7 @@ from ..common import (AXES, GRIDS, SIDES, apply_bc, dims_of, face_shapes, full_s
 from ..result import Result
 
 ID = "C14"
+NO_INT_DTYPE = True     # numpy itself refuses integer ** negative integer and the reference evaluation is in floating point
 TOLERANCES = {"values vs numpy evaluation": "bitwise (NaN == NaN)", "ghost layer vs reference": 1e-12,
               "operands / results": "byte snapshots, np.shares_memory"}
 RULE = ("Generated: expression trees of depth <= 3 over + - * / ** neg abs > >= < <= & | and the reflected + - * / ** (python scalar "
